@@ -17,7 +17,7 @@ the remaining cases of this worker are skipped (reported as such), so a broken i
 
 Instrumentation is on the harness side only: the module globals `Process` and `Pipe` that calculate_in_subprocess looks up
 at call time are wrapped to learn the child's pid and the Connection objects of each invocation (weak references)."""
-import asyncio, contextvars, fcntl, gc, json, mmap, os, signal, struct, sys, termios, threading, time, weakref
+import asyncio, contextvars, fcntl, gc, json, mmap, os, signal, struct, sys, termios, threading, time, traceback, weakref
 
 W_ASYNC = float(os.environ.get('PV_C17_WATCHDOG', '25'))
 W_HARD = W_ASYNC + 20.0
@@ -290,12 +290,28 @@ async def run_one(idx, inv):
             if inv['via'] == 'deco':
                 deco = M.in_subprocess(callee)
                 wraps_ok = deco.__name__ == callee.__name__ and asyncio.iscoroutinefunction(deco)
-                return await deco(token, **inv['kw'])
-            return await M.calculate_in_subprocess(callee, token, **inv['kw'])
-        except (KeyboardInterrupt, SystemExit, GeneratorExit) as ex:
-            return ESCAPED, ex     # must not reach the event loop of this worker: it would stop it
-        finally:
+                r = await deco(token, **inv['kw'])
+            else:
+                r = await M.calculate_in_subprocess(callee, token, **inv['kw'])
             observe(idx)           # same synchronous segment in which the outcome leaves the implementation
+            return r
+        except (asyncio.CancelledError, HardTimeout):
+            observe(idx)
+            raise
+        except BaseException as ex:
+            # The exception is turned into plain data right here, while it is in flight (the frames of the
+            # implementation are still alive: that is when the pipe ends / the child are inspected), and its frames are
+            # cleared by reference counting.  Nothing of it reaches the Task or the event loop: a KeyboardInterrupt /
+            # SystemExit would stop this worker's loop, and CPython 3.12 can crash (bytesiobuf_releasebuffer on a cleared
+            # BytesIO) when the CYCLE collector later frees the frames of a Connection.recv() whose unpickling raised.
+            observe(idx)
+            d = classify(inv, token, 'exc', ex)
+            d['exc_name'] = type(ex).__name__
+            tb = ex.__traceback__
+            ex.__traceback__ = None
+            traceback.clear_frames(tb)
+            del tb
+            return ESCAPED, d
 
     out = {'hang': None}
     task = asyncio.ensure_future(wrapped())
@@ -316,8 +332,7 @@ async def run_one(idx, inv):
         try:
             r = task.result()
             if isinstance(r, tuple) and len(r) == 2 and r[0] is ESCAPED:
-                out.update(classify(inv, token, 'exc', r[1]))
-                out['exc_name'] = type(r[1]).__name__
+                out.update(r[1])
             else:
                 out.update(classify(inv, token, 'ret', r))
             r = None
@@ -399,6 +414,7 @@ def run_batch(case):
 
 
 def main():
+    gc.disable()       # collected explicitly at batch boundaries only (see run_one)
     signal.signal(signal.SIGALRM, _alarm)
     cases = json.load(sys.stdin)
     after_hang = False
